@@ -39,6 +39,8 @@ func (r *refcat) step(o ochg, lenient bool) (strict, soft []failure) {
 		strict = append(strict, failure{class: "fk-before-table", msg: fmt.Sprintf(f, a...), child: o.t, sym: fk.sym, ref: fk.ref})
 	}
 	switch o.kind {
+	case 'P', 'Q':
+		// enum objects are outside the table / foreign-key catalogue (judgeTypes)
 	case 'A':
 		if r.tabs[o.t] {
 			fail("double-create", "table %d created while it exists", o.t)
@@ -158,4 +160,69 @@ func judge(sc *scenario, in, outp []ochg) (string, []failure) {
 		viol = append(viol, failure{class: "effects-changed", msg: fmt.Sprintf("final catalogue of the plan %s differs from the one of the change set %s", b, a)})
 	}
 	return verdict, viol
+}
+
+// judgeTypes: the enum-type obligations of a plan (not part of the model's catalogue, hence not of the
+// replay verdict): a type exists when a table or a column uses it, is created once, and is dropped only
+// when no table uses it any more. Types are database objects: identified by name k (objects 2k, 2k+1).
+func judgeTypes(sc *scenario, outp []ochg) []failure {
+	var viol []failure
+	types := map[int]bool{}
+	uses := map[[2]int]int{}
+	for _, k := range sc.cat.types {
+		types[k] = true
+	}
+	for _, u := range sc.cat.uses {
+		uses[u]++
+	}
+	fail := func(i int, o ochg, class, f string, a ...any) {
+		viol = append(viol, failure{class: class, msg: fmt.Sprintf("step %d (%s): ", i, o.String()) + fmt.Sprintf(f, a...)})
+	}
+	for i, o := range outp {
+		switch o.kind {
+		case 'P':
+			if types[o.e/2] {
+				fail(i, o, "type-double-create", "enum %d created while it exists", o.e/2)
+			}
+			types[o.e/2] = true
+		case 'Q':
+			if !types[o.e/2] {
+				fail(i, o, "type-double-drop", "enum %d dropped while it does not exist", o.e/2)
+			}
+			for u, n := range uses {
+				if u[1] == o.e/2 && n > 0 {
+					fail(i, o, "type-dropped-in-use", "enum %d dropped while a column of table %d uses it", o.e/2, u[0])
+				}
+			}
+			delete(types, o.e/2)
+		case 'A':
+			for _, e := range o.types {
+				if !types[e/2] {
+					fail(i, o, "type-before-use", "CREATE TABLE %d uses enum %d which does not exist", o.t, e/2)
+				}
+				uses[[2]int{o.t, e / 2}]++
+			}
+		case 'D':
+			for u := range uses {
+				if u[0] == o.t {
+					delete(uses, u)
+				}
+			}
+		case 'M':
+			for _, tc := range o.tcs {
+				if tc.kind != 'c' {
+					continue
+				}
+				if tc.k < 2 {
+					if !types[tc.e/2] {
+						fail(i, o, "type-before-use", "ALTER TABLE %d uses enum %d which does not exist", o.t, tc.e/2)
+					}
+					uses[[2]int{o.t, tc.e / 2}]++
+				} else if uses[[2]int{o.t, tc.e / 2}] > 0 {
+					uses[[2]int{o.t, tc.e / 2}]--
+				}
+			}
+		}
+	}
+	return viol
 }
